@@ -7,11 +7,10 @@ import Paroxy.Proofs.ReportCell
 namespace Paroxy.ReportText
 open Paroxy Paroxy.Report Paroxy.ReportCell
 
-/-- What the theorems need from the rendering of costs: the characters of a float literal, and a
-reader that inverts it (hence injectivity). -/
-structure CostOK (showCost : Rat → Str) (readCost : Str → Option Rat) : Prop where
-  chars : ∀ c, ∀ x ∈ showCost c, costChar x = true
-  read : ∀ c, readCost (showCost c) = some c
+theorem costOKb_spec {rc : Str → Option Rat} {txt : Str} {c : Rat} (h : costOKb rc txt c = true) :
+    (∀ x ∈ txt, costChar x = true) ∧ rc txt = some c := by
+  simp only [costOKb, Bool.and_eq_true, List.all_eq_true, beq_iff_eq] at h
+  exact h
 
 theorem stripPrefix_append (p x : Str) : stripPrefix p (p ++ x) = some x := by
   induction p with
@@ -88,8 +87,8 @@ theorem classify_heading (rc : Str → Option Rat) (b : Bucket) (n : Nat) :
 
 theorem titleMid_reverse : titleMid.reverse = titleMidRev := by decide
 
-theorem parseTitle_line (sc : Rat → Str) (rc : Str → Option Rat) (hc : CostOK sc rc) (s : Section)
-    (hp : okPath s.path = true) :
+theorem parseTitle_line (sc : Rat → Str) (rc : Str → Option Rat) (s : Section)
+    (hc : costOKb rc (sc s.cost) s.cost = true) (hp : okPath s.path = true) :
     parseTitle rc (chars s.path ++ (titleMid ++ (sc s.cost ++ [')']))) = some (.title s.path s.cost) := by
   unfold parseTitle
   have e : (chars s.path ++ (titleMid ++ (sc s.cost ++ [')']))).reverse =
@@ -97,7 +96,7 @@ theorem parseTitle_line (sc : Rat → Str) (rc : Str → Option Rat) (hc : CostO
     simp [List.reverse_append, titleMid_reverse, titleMidRev]
   rw [e]
   have h := span_stop (· != ' ') (sc s.cost).reverse ' ' (titleMidRev.tail ++ (chars s.path).reverse)
-    (fun x hx => costChar_ne_space x (hc.chars _ x (List.mem_reverse.mp hx))) (by decide)
+    (fun x hx => costChar_ne_space x ((costOKb_spec hc).1 x (List.mem_reverse.mp hx))) (by decide)
   simp only [if_true]
   rw [h.1, h.2]
   have e2 : ' ' :: (titleMidRev.tail ++ (chars s.path).reverse) = titleMidRev ++ (chars s.path).reverse := by
@@ -108,13 +107,14 @@ theorem parseTitle_line (sc : Rat → Str) (rc : Str → Option Rat) (hc : CostO
     have := List.all_eq_true.mp hp n hn
     simp at this
     exact this.1
-  simp [hc.read, chars_toNat _ hv]
+  simp [(costOKb_spec hc).2, chars_toNat _ hv]
 
-theorem classify_title (sc : Rat → Str) (rc : Str → Option Rat) (hc : CostOK sc rc) (s : Section)
+theorem classify_title (sc : Rat → Str) (rc : Str → Option Rat) (s : Section)
+    (hc : costOKb rc (sc s.cost) s.cost = true)
     (hp : okPath s.path = true) : classify rc (titleLine sc s) = some (.title s.path s.cost) := by
   unfold classify titleLine
   rw [stripPrefix_append]
-  exact parseTitle_line sc rc hc s hp
+  exact parseTitle_line sc rc s hc hp
 
 /-! ### Row lines -/
 
@@ -141,16 +141,16 @@ theorem okRow_taxon (r : Row) (h : okRow r = true) :
     exact h96 this
   simpa using this
 
-theorem parseRow_line (sc : Rat → Str) (rc : Str → Option Rat) (hc : CostOK sc rc) (w : Nat) (hw : 0 < w) (r : Row)
-    (hr : okRow r = true) :
-    parseRow rc (sc r.cost ++ (sep1 ++ (chars r.taxon ++ (sep2 ++ (renderCell w r.spans ++ rowClose))))) =
+theorem parseRow_line (src : Codes → Rat → Str) (rc : Str → Option Rat) (w : Nat) (hw : 0 < w) (r : Row)
+    (hc : costOKb rc (src r.taxon r.cost) r.cost = true) (hr : okRow r = true) :
+    parseRow rc (src r.taxon r.cost ++ (sep1 ++ (chars r.taxon ++ (sep2 ++ (renderCell w r.spans ++ rowClose))))) =
       some (.row r) := by
   unfold parseRow
   obtain ⟨hv, hq⟩ := okRow_taxon r hr
-  have h := span_stop (· != ' ') (sc r.cost) ' ' (sep1.tail ++ (chars r.taxon ++ (sep2 ++ (renderCell w r.spans ++ rowClose))))
-    (fun x hx => costChar_ne_space x (hc.chars _ x hx)) (by decide)
-  have e : sc r.cost ++ (sep1 ++ (chars r.taxon ++ (sep2 ++ (renderCell w r.spans ++ rowClose)))) =
-      sc r.cost ++ ' ' :: (sep1.tail ++ (chars r.taxon ++ (sep2 ++ (renderCell w r.spans ++ rowClose)))) := by
+  have h := span_stop (· != ' ') (src r.taxon r.cost) ' ' (sep1.tail ++ (chars r.taxon ++ (sep2 ++ (renderCell w r.spans ++ rowClose))))
+    (fun x hx => costChar_ne_space x ((costOKb_spec hc).1 x hx)) (by decide)
+  have e : src r.taxon r.cost ++ (sep1 ++ (chars r.taxon ++ (sep2 ++ (renderCell w r.spans ++ rowClose)))) =
+      src r.taxon r.cost ++ ' ' :: (sep1.tail ++ (chars r.taxon ++ (sep2 ++ (renderCell w r.spans ++ rowClose)))) := by
     simp [sep1]
   rw [e, h.1, h.2]
   have e2 : ' ' :: (sep1.tail ++ (chars r.taxon ++ (sep2 ++ (renderCell w r.spans ++ rowClose)))) =
@@ -169,36 +169,37 @@ theorem parseRow_line (sc : Rat → Str) (rc : Str → Option Rat) (hc : CostOK 
   simp only [e5]
   have hcell := parse_render w hw (r.spans.map fun sp => (sp.1.toNat, sp.2.toNat))
   rw [toSpan_of_nonneg r.spans (okRow_spans r hr)] at hcell
-  simp [hc.read, hcell, chars_toNat _ hv]
+  simp [(costOKb_spec hc).2, hcell, chars_toNat _ hv]
 
-theorem rowLine_ne_header (sc : Rat → Str) (rc : Str → Option Rat) (hc : CostOK sc rc) (w : Nat) (r : Row) :
-    rowLine sc w r ≠ headerLine := by
+theorem rowLine_ne_header (src : Codes → Rat → Str) (rc : Str → Option Rat) (w : Nat) (r : Row)
+    (hc : costOKb rc (src r.taxon r.cost) r.cost = true) : rowLine src w r ≠ headerLine := by
   unfold rowLine
   intro h
-  cases hs : sc r.cost with
+  cases hs : src r.taxon r.cost with
   | nil => rw [hs] at h; simp [rowOpen, sep1, headerLine] at h
   | cons a t =>
-    have ha := hc.chars r.cost a (by rw [hs]; simp)
+    have ha := (costOKb_spec hc).1 a (by rw [hs]; simp)
     rw [hs] at h
     simp only [rowOpen, headerLine, List.cons_append, List.nil_append, List.cons.injEq, true_and] at h
     have : a = 'C' := h.1
     subst this
     revert ha; decide
 
-theorem classify_row (sc : Rat → Str) (rc : Str → Option Rat) (hc : CostOK sc rc) (w : Nat) (hw : 0 < w) (r : Row)
-    (hr : okRow r = true) : classify rc (rowLine sc w r) = some (.row r) := by
-  have hh := rowLine_ne_header sc rc hc w r
+theorem classify_row (src : Codes → Rat → Str) (rc : Str → Option Rat) (w : Nat) (hw : 0 < w) (r : Row)
+    (hc : costOKb rc (src r.taxon r.cost) r.cost = true)
+    (hr : okRow r = true) : classify rc (rowLine src w r) = some (.row r) := by
+  have hh := rowLine_ne_header src rc w r hc
   unfold classify
-  have h1 : stripPrefix titleOpen (rowLine sc w r) = none := by simp [rowLine, stripPrefix, titleOpen, rowOpen]
-  have h2 : stripPrefix headOpen (rowLine sc w r) = none := by simp [rowLine, stripPrefix, headOpen, rowOpen]
-  have h3 : rowLine sc w r ≠ [] := by simp [rowLine, rowOpen]
-  have h4 : rowLine sc w r ≠ ruleLine := by simp [rowLine, rowOpen, ruleLine]
-  have h5 : rowLine sc w r ≠ hrLine := by simp [rowLine, rowOpen, hrLine]
+  have h1 : stripPrefix titleOpen (rowLine src w r) = none := by simp [rowLine, stripPrefix, titleOpen, rowOpen]
+  have h2 : stripPrefix headOpen (rowLine src w r) = none := by simp [rowLine, stripPrefix, headOpen, rowOpen]
+  have h3 : rowLine src w r ≠ [] := by simp [rowLine, rowOpen]
+  have h4 : rowLine src w r ≠ ruleLine := by simp [rowLine, rowOpen, ruleLine]
+  have h5 : rowLine src w r ≠ hrLine := by simp [rowLine, rowOpen, hrLine]
   rw [h1, h2]
   simp only [h3, hh, h4, h5, if_false]
   unfold rowLine
   rw [stripPrefix_append]
-  exact parseRow_line sc rc hc w hw r hr
+  exact parseRow_line src rc w hw r hc hr
 
 /-! ### The four fixed lines -/
 
@@ -212,65 +213,142 @@ theorem classify_hr (rc : Str → Option Rat) : classify rc hrLine = some .hr :=
 
 /-! ### The fold -/
 
-theorem fold_rows (sc : Rat → Str) (rc : Str → Option Rat) (hc : CostOK sc rc) (w : Nat) (hw : 0 < w) (s : St) :
-    ∀ rows : List Row, (∀ r ∈ rows, okRow r = true) →
-      (rows.map (rowLine sc w)).foldr (step rc) (some s) = some { s with rows := rows ++ s.rows }
+/-- The hygiene of one row / one section, names and cost texts together. -/
+def RowOK (src : Codes → Rat → Str) (rc : Str → Option Rat) (r : Row) : Prop :=
+  okRow r = true ∧ costOKb rc (src r.taxon r.cost) r.cost = true
+
+def SecOK (sc : Rat → Str) (src : Codes → Rat → Str) (rc : Str → Option Rat) (s : Section) : Prop :=
+  okPath s.path = true ∧ costOKb rc (sc s.cost) s.cost = true ∧ ∀ r ∈ s.rows, RowOK src rc r
+
+theorem fold_rows (src : Codes → Rat → Str) (rc : Str → Option Rat) (w : Nat) (hw : 0 < w) (s : St) :
+    ∀ rows : List Row, (∀ r ∈ rows, RowOK src rc r) →
+      (rows.map (rowLine src w)).foldr (step rc) (some s) = some { s with rows := rows ++ s.rows }
   | [], _ => rfl
   | r :: t, h => by
-    have ih := fold_rows sc rc hc w hw s t fun x hx => h x (List.mem_cons_of_mem _ hx)
+    have ih := fold_rows src rc w hw s t fun x hx => h x (List.mem_cons_of_mem _ hx)
     simp only [List.map_cons, List.foldr_cons, ih]
-    simp [step, classify_row sc rc hc w hw r (h r (by simp))]
+    have hr := h r (by simp)
+    simp [step, classify_row src rc w hw r hr.2 hr.1]
 
-theorem fold_section (sc : Rat → Str) (rc : Str → Option Rat) (hc : CostOK sc rc) (w : Nat) (hw : 0 < w)
-    (sec : Section) (hs : okSection sec = true) (s : St) (h0 : s.rows = []) :
-    (renderSection sc w sec).foldr (step rc) (some s) = some { s with secs := sec :: s.secs } := by
-  simp only [okSection, Bool.and_eq_true, List.all_eq_true] at hs
+theorem fold_section (sc : Rat → Str) (src : Codes → Rat → Str) (rc : Str → Option Rat) (w : Nat) (hw : 0 < w)
+    (sec : Section) (hs : SecOK sc src rc sec) (s : St) (h0 : s.rows = []) :
+    (renderSection sc src w sec).foldr (step rc) (some s) = some { s with secs := sec :: s.secs } := by
   unfold renderSection
   simp only [List.foldr_cons, List.foldr_append, List.foldr_nil]
   have e1 : step rc hrLine (some s) = some s := by simp [step, classify_hr]
   have e2 : ∀ x : St, step rc [] (some x) = some x := by intro x; simp [step, classify_blank]
-  rw [e1, e2, fold_rows sc rc hc w hw s sec.rows hs.2]
+  rw [e1, e2, fold_rows src rc w hw s sec.rows hs.2.2]
   have e3 : ∀ x : St, step rc ruleLine (some x) = some x := by intro x; simp [step, classify_rule]
   have e4 : ∀ x : St, step rc headerLine (some x) = some x := by intro x; simp [step, classify_header]
   rw [e3, e4, e2]
   have e5 : ∀ x : St, step rc (titleLine sc sec) (some x) =
       some { x with rows := [], secs := ⟨sec.path, sec.cost, x.rows⟩ :: x.secs } := by
-    intro x; simp [step, classify_title sc rc hc sec hs.1]
+    intro x; simp [step, classify_title sc rc sec hs.2.1 hs.1]
   rw [e5, e2]
   cases s; cases sec; simp_all
 
-theorem fold_sections (sc : Rat → Str) (rc : Str → Option Rat) (hc : CostOK sc rc) (w : Nat) (hw : 0 < w) (s : St)
+theorem fold_sections (sc : Rat → Str) (src : Codes → Rat → Str) (rc : Str → Option Rat) (w : Nat) (hw : 0 < w) (s : St)
     (h0 : s.rows = []) :
-    ∀ secs : List Section, (∀ x ∈ secs, okSection x = true) →
-      (secs.flatMap (renderSection sc w)).foldr (step rc) (some s) = some { s with secs := secs ++ s.secs }
+    ∀ secs : List Section, (∀ x ∈ secs, SecOK sc src rc x) →
+      (secs.flatMap (renderSection sc src w)).foldr (step rc) (some s) = some { s with secs := secs ++ s.secs }
   | [], _ => rfl
   | a :: t, h => by
-    have ih := fold_sections sc rc hc w hw s h0 t fun x hx => h x (List.mem_cons_of_mem _ hx)
+    have ih := fold_sections sc src rc w hw s h0 t fun x hx => h x (List.mem_cons_of_mem _ hx)
     simp only [List.flatMap_cons, List.foldr_append, ih]
-    rw [fold_section sc rc hc w hw a (h a (by simp)) _ (by simpa using h0)]
+    rw [fold_section sc src rc w hw a (h a (by simp)) _ (by simpa using h0)]
     simp
 
-theorem fold_bucket (sc : Rat → Str) (rc : Str → Option Rat) (hc : CostOK sc rc) (w : Nat) (hw : 0 < w)
-    (g : Bucket × List Section) (hg : ∀ x ∈ g.2, okSection x = true) (bks : List (Bucket × List Section)) :
-    (renderBucket sc w g).foldr (step rc) (some ⟨[], [], bks⟩) = some ⟨[], [], g :: bks⟩ := by
+theorem fold_bucket (sc : Rat → Str) (src : Codes → Rat → Str) (rc : Str → Option Rat) (w : Nat) (hw : 0 < w)
+    (g : Bucket × List Section) (hg : ∀ x ∈ g.2, SecOK sc src rc x) (bks : List (Bucket × List Section)) :
+    (renderBucket sc src w g).foldr (step rc) (some ⟨[], [], bks⟩) = some ⟨[], [], g :: bks⟩ := by
   unfold renderBucket
   simp only [List.foldr_cons]
-  rw [fold_sections sc rc hc w hw ⟨[], [], bks⟩ rfl g.2 hg]
+  rw [fold_sections sc src rc w hw ⟨[], [], bks⟩ rfl g.2 hg]
   simp [step, classify_heading, classify_blank]
 
-theorem fold_body (sc : Rat → Str) (rc : Str → Option Rat) (hc : CostOK sc rc) (w : Nat) (hw : 0 < w) :
-    ∀ b : List (Bucket × List Section), okBody b = true →
-      (renderBody sc w b).foldr (step rc) (some ⟨[], [], []⟩) = some ⟨[], [], b⟩
+theorem fold_body (sc : Rat → Str) (src : Codes → Rat → Str) (rc : Str → Option Rat) (w : Nat) (hw : 0 < w) :
+    ∀ b : List (Bucket × List Section), (∀ g ∈ b, ∀ x ∈ g.2, SecOK sc src rc x) →
+      (renderBody sc src w b).foldr (step rc) (some ⟨[], [], []⟩) = some ⟨[], [], b⟩
   | [], _ => rfl
   | g :: t, h => by
-    simp only [okBody, List.all_cons, Bool.and_eq_true] at h
-    have ih := fold_body sc rc hc w hw t (by simpa [okBody] using h.2)
+    have ih := fold_body sc src rc w hw t fun g' hg' => h g' (List.mem_cons_of_mem _ hg')
     simp only [renderBody, List.flatMap_cons, List.foldr_append] at ih ⊢
     rw [ih]
-    exact fold_bucket sc rc hc w hw g (by simpa [List.all_eq_true] using h.1) t
+    exact fold_bucket sc src rc w hw g (h g (by simp)) t
 
-theorem parse_render_body (sc : Rat → Str) (rc : Str → Option Rat) (hc : CostOK sc rc) (w : Nat) (hw : 0 < w)
-    (b : List (Bucket × List Section)) (hb : okBody b = true) : parseBody rc (renderBody sc w b) = some b := by
-  simp [parseBody, fold_body sc rc hc w hw b hb]
+theorem secOK_of (sc : Rat → Str) (src : Codes → Rat → Str) (rc : Str → Option Rat)
+    (b : List (Bucket × List Section)) (hb : okBody b = true) (hc : costsOK sc src rc b = true) :
+    ∀ g ∈ b, ∀ x ∈ g.2, SecOK sc src rc x := by
+  intro g hg x hx
+  simp only [okBody, okSection, costsOK, List.all_eq_true, Bool.and_eq_true] at hb hc
+  have h1 := hb g hg x hx
+  have h2 := hc g hg x hx
+  exact ⟨h1.1, h2.1, fun r hr => ⟨h1.2 r hr, h2.2 r hr⟩⟩
+
+theorem parse_render_body (sc : Rat → Str) (src : Codes → Rat → Str) (rc : Str → Option Rat) (w : Nat) (hw : 0 < w)
+    (b : List (Bucket × List Section)) (hb : okBody b = true) (hc : costsOK sc src rc b = true) :
+    parseBody rc (renderBody sc src w b) = some b := by
+  simp [parseBody, fold_body sc src rc w hw b (secOK_of sc src rc b hb hc)]
+
+/-! ### Soundness of the reader on ARBITRARY lines: the counts -/
+
+theorem fold_counts (rc : Str → Option Rat) (s0 : St) : ∀ (lines : List Str) (s : St),
+    lines.foldr (step rc) (some s0) = some s →
+    ∀ g ∈ s.bks, g ∈ s0.bks ∨ ∃ l ∈ lines, classify rc l = some (.heading g.1 g.2.length)
+  | [], s, h, g, hg => by
+    simp only [List.foldr_nil, Option.some.injEq] at h
+    subst h
+    exact Or.inl hg
+  | l :: t, s, h, g, hg => by
+    simp only [List.foldr_cons] at h
+    cases ht : t.foldr (step rc) (some s0) with
+    | none => rw [ht] at h; simp [step] at h
+    | some s1 =>
+      rw [ht] at h
+      have ih := fold_counts rc s0 t s1 ht
+      have lift : (g ∈ s1.bks) → g ∈ s0.bks ∨ ∃ l' ∈ l :: t, classify rc l' = some (.heading g.1 g.2.length) := by
+        intro hg1
+        rcases ih g hg1 with h0 | ⟨l', hl', hc'⟩
+        · exact Or.inl h0
+        · exact Or.inr ⟨l', List.mem_cons_of_mem _ hl', hc'⟩
+      unfold step at h
+      simp only at h
+      cases hc : classify rc l with
+      | none => rw [hc] at h; simp at h
+      | some ln =>
+        rw [hc] at h
+        cases ln with
+        | blank | header | rule | hr =>
+          simp only [Option.some.injEq] at h; subst h; exact lift hg
+        | row r => simp only [Option.some.injEq] at h; subst h; exact lift hg
+        | title p c => simp only [Option.some.injEq] at h; subst h; exact lift hg
+        | heading bk n =>
+          simp only at h
+          split at h
+          · rename_i hcond
+            simp only [Option.some.injEq] at h
+            subst h
+            simp only [Bool.and_eq_true, beq_iff_eq] at hcond
+            simp only [List.mem_cons] at hg
+            rcases hg with rfl | hg
+            · refine Or.inr ⟨l, by simp, ?_⟩
+              rw [hc, hcond.2]
+            · exact lift hg
+          · simp at h
+
+theorem parseBody_counts (rc : Str → Option Rat) (lines : List Str) (b : List (Bucket × List Section))
+    (h : parseBody rc lines = some b) (g : Bucket × List Section) (hg : g ∈ b) :
+    ∃ l ∈ lines, classify rc l = some (.heading g.1 g.2.length) := by
+  unfold parseBody at h
+  cases hf : lines.foldr (step rc) (some ⟨[], [], []⟩) with
+  | none => rw [hf] at h; simp at h
+  | some s =>
+    rw [hf] at h
+    obtain ⟨rows, secs, bks⟩ := s
+    cases rows <;> cases secs <;> simp at h
+    subst h
+    rcases fold_counts rc ⟨[], [], []⟩ lines _ hf g hg with h0 | h1
+    · simp at h0
+    · exact h1
 
 end Paroxy.ReportText
